@@ -132,3 +132,71 @@ func setOdd(r *core.Rand, m protoreflect.Message, num, den, depth int) int {
 	})
 	return n
 }
+
+// Sibling returns a copy of m in which every scalar field that is set (extension payloads included) is changed with
+// probability num/den: strings get a suffix, numbers move by one, booleans flip. FeedEntity.id is kept, so the copy
+// names the same entities (and, field by field with probability 1-num/den, the same trips, vehicles, alerts, timestamps)
+// with partly different content: the input that exposes state which survives a call and is keyed by too few fields.
+func Sibling(r *core.Rand, m proto.Message, num, den int) proto.Message {
+	c := proto.Clone(m)
+	siblingWalk(r, c.ProtoReflect(), num, den, 0)
+	return c
+}
+
+func siblingWalk(r *core.Rand, m protoreflect.Message, num, den, depth int) {
+	if depth > 6 {
+		return
+	}
+	isEntity := m.Descriptor().FullName() == "transit_realtime.FeedEntity"
+	m.Range(func(fd protoreflect.FieldDescriptor, v protoreflect.Value) bool {
+		if fd.IsList() {
+			if fd.Kind() == protoreflect.MessageKind {
+				l := v.List()
+				for k := 0; k < l.Len(); k++ {
+					siblingWalk(r, l.Get(k).Message(), num, den, depth+1)
+				}
+			}
+			return true
+		}
+		if fd.IsMap() || (isEntity && fd.Name() == "id") {
+			return true
+		}
+		switch fd.Kind() {
+		case protoreflect.MessageKind:
+			siblingWalk(r, v.Message(), num, den, depth+1)
+		case protoreflect.StringKind:
+			if r.Chance(num, den) {
+				m.Set(fd, protoreflect.ValueOfString(v.String()+"'"))
+			}
+		case protoreflect.Int32Kind, protoreflect.Sint32Kind, protoreflect.Sfixed32Kind:
+			if r.Chance(num, den) && v.Int() < 1<<30 {
+				m.Set(fd, protoreflect.ValueOfInt32(int32(v.Int())+1))
+			}
+		case protoreflect.Int64Kind, protoreflect.Sint64Kind, protoreflect.Sfixed64Kind:
+			if r.Chance(num, den) && v.Int() < 1<<62 {
+				m.Set(fd, protoreflect.ValueOfInt64(v.Int()+1))
+			}
+		case protoreflect.Uint32Kind, protoreflect.Fixed32Kind:
+			if r.Chance(num, den) && v.Uint() < 1<<31 {
+				m.Set(fd, protoreflect.ValueOfUint32(uint32(v.Uint())+1))
+			}
+		case protoreflect.Uint64Kind, protoreflect.Fixed64Kind:
+			if r.Chance(num, den) && v.Uint() < 1<<63 {
+				m.Set(fd, protoreflect.ValueOfUint64(v.Uint()+1))
+			}
+		case protoreflect.FloatKind:
+			if r.Chance(num, den) {
+				m.Set(fd, protoreflect.ValueOfFloat32(float32(v.Float())+1))
+			}
+		case protoreflect.DoubleKind:
+			if r.Chance(num, den) {
+				m.Set(fd, protoreflect.ValueOfFloat64(v.Float()+1))
+			}
+		case protoreflect.BoolKind:
+			if r.Chance(num, den) {
+				m.Set(fd, protoreflect.ValueOfBool(!v.Bool()))
+			}
+		}
+		return true
+	})
+}
